@@ -23,7 +23,7 @@ def gen_case(rng, tier):
     p = rand_params(rng)
     for k in ('listen_mode', 'rate_limit_enable', 'rate_limit_max_bitrate', 'rate_limit_window_size'):
         p.pop(k, None)
-    big = rng.random() < (0.02 if tier != 'thorough' else 0.05)
+    big = rng.random() < (0.02 if tier != 'thorough' else 0.01)
     n = rng.choice([1, 5, 6, 7, 8, 9, 10, 11, 12, 62, 63, 64, 100, 4094, 4095, 4096, 4097]) if rng.random() < 0.5 else rng.randint(1, (100000 if tier == 'thorough' else 30000) if big else 600)
     p['max_frame_size'] = rng.choice([n, n + 1, max(n, 4095), 10**6])
     inst = dict(a, params=p)
